@@ -73,7 +73,10 @@ let scen_of = function
   | "bindviews" -> Some ScReadViews | "walkcfg" -> Some ScWalk
   | "walklazy" -> Some (if !cfginit_writes then ScWalkLazyCfg else ScWalk)
   | "load" -> Some ScLoad | "proto" -> Some ScProtoBuild | "wrapschema" -> Some ScWrapSchema
-  | "wrapinfer" -> Some (ScWrapInferred !tsmode) | _ -> None
+  | "wrapinfer" -> Some (ScWrapInferred !tsmode)
+  (* cloning / merging OUT OF a shared type system only loads it and builds fresh types; a walk with a
+     compiled selector that has a stopAt condition only loads the selector *)
+  | "clonets" -> Some ScProtoBuild | "stopat" -> Some ScWalk | _ -> None
 
 (* the race classes the model allows for a scenario it predicts racy *)
 let race_classes = function
@@ -131,6 +134,7 @@ let oracle (obs : string) : string =
         (String.split_on_char ',' (String.sub obs 5 (String.length obs - 5))))
   else if obs = "norace;same" then "ok"
   else if obs = "norace;differ" then "fail:results_differ"
+  else if obs = "norace;changed" then "fail:shared_object_changed"
   else "fail:child_failed"
 
 let () =
